@@ -157,8 +157,8 @@ def spec_term(case, outs):
     nq = len(case["queries"])
     items = outs[nw + nq]
     nodes = outs[nw + nq + 1]
-    if isinstance(items, Exc) or isinstance(nodes, Exc):
-        return None
+    if isinstance(items, Exc) or isinstance(nodes, Exc) or any(isinstance(o, Exc) for o in outs[nw:nw + nq]):
+        return None          # an exception is not something the specification side produces (the oracle has reported it)
 
     def nib(k):
         return [x for b in k for x in (b >> 4, b & 15)]
@@ -179,6 +179,12 @@ def check(tier, seed):
                                         ("set", b"\x01\x00\x00", b"c" * 33, "meth"), ("set", b"\x10", b"d", "meth")],
               "m": {b"": b"e", b"\x01": b"a" * 40, b"\x01\x00": b"b", b"\x01\x00\x00": b"c" * 33, b"\x10": b"d"},
               "queries": [None, b"", b"\x00", b"\x01", b"\x01\x00", b"\x01\x00\x00", b"\x01\x00\x01", b"\x0f", b"\x10", b"\x11"]}]
+    # the trie with NO key (never written; emptied again; pruning or not): next() and next(k) return None, the sequences are empty
+    for prune in (False, True):
+        cases.append({"prune": prune, "writes": [], "m": {}, "queries": [None, b"", b"\x01", b"\xff\xff"]})
+        cases.append({"prune": prune, "writes": [("set", b"\x12\x34", b"a" * 40, "meth"), ("set", b"\x12", b"b", "item"),
+                                                 ("del", b"\x12\x34", "meth"), ("del", b"\x12", "item")],
+                      "m": {}, "queries": [None, b"", b"\x12", b"\x12\x34"]})
     cases += [gen_case(rng, tier) for _ in range(n)]
     terms, specs, idx = [], [], []
     for ci, case in enumerate(cases):
